@@ -555,6 +555,21 @@ def gen_period_case(ctx, rng, maxn, ncombos):
             "outside": outside, "wellformed": True}
 
 
+def twin_case(rng, case):
+    rows = [tuple(r) for r in case["rows"]]
+    for _ in range(6):
+        k = rng.randint(1, len(rows) - 2)
+        o = (rows[k][0] + rng.choice([-1, 1, -2, 2]), rows[k][1])
+        if ns_of(rows[k - 1]) < ns_of(o) < ns_of(rows[k + 1]):
+            tw = dict(case)
+            tw["rows"] = [list(r) for r in rows[:k]] + [list(o)] + [list(r) for r in rows[k + 1:]]
+            have = set(ns_of(tuple(r)) for r in tw["rows"]) | {ns_of((rows[0][0] - 1, rows[0][1]))}
+            tw["outside"] = [x for x in case["outside"] if ns_of(tuple(x)) not in have]
+            tw["after"] = {k_: v for k_, v in case.items() if k_ != "after"}
+            return tw
+    return None
+
+
 def all_combos():
     return [[k, [a, b, c]] for k in range(5) for a in (0, 1) for b in (0, 1) for c in (0, 1)]
 
@@ -947,6 +962,13 @@ def _run(ctx, bt, n_period, n_bt, n_ill, n_count, n_count_bt, calendar=True):
         ctx.sample({"period": {"family": case["family"], "unit": case["unit"], "rows": [fmt_row(tuple(r)) for r in case["rows"]][:12],
                                "combos": case["combos"][:3]}}, cap=2)
         run_period_case(ctx, bt, case, batch)
+        if i % 5 == 0 and len(case["rows"]) >= 3:
+            # the same scheduler classes right afterwards on a sibling index - same length, same first and last date, one interior
+            # date moved (two markets over one span with a holiday on different days): answers are a function of the index at hand
+            tw = twin_case(rng, case)
+            if tw is not None:
+                ctx.count("period:twin-index-after-its-sibling")
+                run_period_case(ctx, bt, tw, batch)
         if len(batch.lines) > 3000:
             batch.flush()
     for i in range(n_bt):
@@ -988,5 +1010,7 @@ def search(ctx, bt):
 def replay(bt, data, ctx):
     case = data["case"]
     batch = Batch(ctx)
+    if case.get("after"):
+        run_case(ctx, bt, case["after"], Batch(ctx))      # the sibling index the case was run after
     run_case(ctx, bt, case, batch)
     batch.flush()
